@@ -11,6 +11,8 @@
  *   xsf2 <lc> <value> <xdocroot> ...                         http_response_xsendfile2
  *   davdst <lc> <scheme> <authority> <docroot> <rel_path> <path> <destination>   mod_webdav_copymove_b
  *   symwalk <name> <path:kind> ...                           stat_cache_path_contains_symlink (real filesystem)
+ *   idxfile <docroot> <phys> <k> <names...> <m> <existing...> mod_indexfile_tryfiles (real filesystem; the list of
+ *                                                            existing candidates is for the model only)
  * The filesystem is replaced by deterministic stand-ins (macros below) except for symwalk. */
 #include "first.h"
 #include "harness_common.h"
@@ -94,6 +96,12 @@ static int ltv_lstat(const char *path, struct stat *st) {
 
 #undef stat_cache_path_isdir
 
+#define plugin_config indexfile_plugin_config
+#define plugin_data indexfile_plugin_data
+#include "mod_indexfile.c"
+#undef plugin_config
+#undef plugin_data
+
 #define stat_cache_get_entry_open ltv_sce_open
 #include "http-header-glue.c"
 #undef stat_cache_get_entry_open
@@ -133,6 +141,7 @@ int main(void) {
     r->conf.errh = fdlog_init(NULL, devnull, FDLOG_FD);
     srv.errh = r->conf.errh;
     log_set_global_errh(r->conf.errh, 0);
+    stat_cache_init(NULL, r->conf.errh);
     buffer *b1 = buffer_init(), *b2 = buffer_init(), *b3 = buffer_init(), *b4 = buffer_init();
     array *arr = array_init(4);
 
@@ -287,6 +296,21 @@ int main(void) {
                 fputc(' ', stdout); put_buf(&dst.path); fputc('\n', stdout);
             }
             else printf("st %d\n", r->http_status);
+        }
+        else if (0 == strcmp(op, "idxfile") && ltv_ntok >= 5) {
+            set_buf(&r->physical.doc_root, ltv_tok[1]);
+            set_buf(&r->physical.path, ltv_tok[2]);
+            buffer_copy_string_len(&r->uri.path, CONST_STR_LEN("/"));
+            const int k = atoi(ltv_tok[3]);
+            if (k < 0 || 4 + k > ltv_ntok) { puts("bad-op"); continue; }
+            for (int i = 0; i < k; ++i) {
+                set_buf(b1, ltv_tok[4 + i]);
+                array_insert_value(arr, BUF_PTR_LEN(b1));
+            }
+            array_reset_data_strings(&r->env);
+            handler_t rc = mod_indexfile_tryfiles(r, arr);
+            if (rc == HANDLER_FINISHED) printf("%d\n", r->http_status);
+            else { fputs("go ", stdout); put_buf(&r->physical.path); fputc('\n', stdout); }
         }
         else if (0 == strcmp(op, "symwalk") && ltv_ntok >= 2) {
             set_buf(b1, ltv_tok[1]);
